@@ -1254,6 +1254,11 @@ impl Wallet {
             });
             for key in unspent_slips {
                 let slip = self.slips.get(key).unwrap();
+                if slip.block_id < last_valid_slips_in_block_id {
+                    // slip is too old (the same rule as for the staking slips above): the ledger refuses
+                    // it as an input now, its rebroadcast arrives with the next block
+                    continue;
+                }
 
                 collected_from_unspent_slips += slip.amount;
 
